@@ -270,6 +270,15 @@ func (in *Interp) doSend(th *Thread, ch *ChanObj, v Value) {
 		ch.buf = append(ch.buf, v)
 		return
 	}
+	// buffer full but a receiver is at its receive operation: that receiver takes the oldest buffered
+	// value (as if it had run first) and v takes the freed slot
+	if rs := in.parkedOn(ch, false, th); len(rs) > 0 && len(ch.buf) > 0 {
+		k := in.choose(len(rs), "recvpeer")
+		head := ch.buf[0]
+		ch.buf = append(append([]Value{}, ch.buf[1:]...), v)
+		in.completeRecvPeer(rs[k], ch, head)
+		return
+	}
 	panic("internal: doSend not enabled")
 }
 
